@@ -194,14 +194,30 @@ class StmtMixin:
             p1.assume(c)
             p1.trace.append((s.lineno, 1))
             if sv.is_true(c) or self.feasible(p1):
+                self.narrow_tested(s.test, p1)
                 outs += self.exec_block(s.body, p1)
         if not sv.is_true(c):
             p2 = path.clone()
             p2.assume(sv.Not(c))
             p2.trace.append((s.lineno, 0))
             if sv.is_false(c) or self.feasible(p2):
+                self.narrow_tested(s.test, p2)
                 outs += self.exec_block(s.orelse, p2)
         return outs
+
+    def narrow_tested(self, test, p):
+        """`x is None` / `x is not None` tests on a local: alternatives of x excluded by the branch condition are dropped"""
+        names = set()
+        for n in ast.walk(test):
+            if isinstance(n, ast.Compare) and isinstance(n.left, ast.Name) and len(n.ops) == 1 and isinstance(n.ops[0], (ast.Is, ast.IsNot)) \
+                    and isinstance(n.comparators[0], ast.Constant) and n.comparators[0].value is None:
+                names.add(n.left.id)
+        for nm in names:
+            v = p.env.get(nm)
+            if isinstance(v, sv.SUnion):
+                keep = [(g, x) for g, x in v.alts if not self.entails(p, sv.Not(g))]
+                if keep and len(keep) < len(v.alts):
+                    p.env[nm] = keep[0][1] if len(keep) == 1 else sv.mk_union(keep)
 
     def _s_With(self, s, path):
         for item in s.items:
